@@ -75,6 +75,9 @@ class Register(GlobalVar):
 
     def il_init_var(self):
         if self.get_name() == "pc":
+            if self.access == RegisterAccessType.W:
+                # PC is written. Like any other written register it needs its operand.
+                return self.il_isa_to_assoc_name()
             return "RzILOpPure *pc = U32(pkt->pkt_addr);"
         # Registers which are only written do not need their own RzILOpPure.
         if self.access == RegisterAccessType.W or self.access == RegisterAccessType.PW:
